@@ -527,6 +527,9 @@ class BasePort(logging_utils.LoggableMixin, metaclass=abc.ABCMeta):
 
             main.force_eval_expressions(self)
 
+        # The expressions of other ports may depend on this port: they could not be evaluated while it was disabled
+        main.force_eval_expressions()
+
         try:
             await self.handle_enable()
         except Exception:
